@@ -52,6 +52,15 @@ static std::vector<std::pair<size_t, size_t>> line_spans(const std::string& t) {
 static std::vector<Mut> mutations(const Seed& s, bool thorough) {
     std::vector<Mut> m;
     if (s.level == 3 || s.level == 5) { m.push_back({'I', 0, 0}); return m; }
+    if (s.level == 7) {          // token / line mutations restricted to the block [ext = "begin:end"] of the text
+        size_t b = 0, e = 0; std::sscanf(s.ext.c_str(), "%zu:%zu", &b, &e);
+        auto tk = token_spans(s.text);
+        for (int i = 0; i < (int)tk.size(); ++i) { if (tk[i].first < b || tk[i].first >= e) continue; m.push_back({'D', i, 0}); m.push_back({'U', i, 0}); for (int h = 0; h < (int)hostile.size(); ++h) m.push_back({'R', i, h}); }
+        auto ln = line_spans(s.text);
+        for (int i = 0; i < (int)ln.size(); ++i) { if (ln[i].first < b || ln[i].first >= e) continue; m.push_back({'d', i, 0}); m.push_back({'u', i, 0}); if (i + 1 < (int)ln.size()) m.push_back({'s', i, 0}); }
+        m.push_back({'I', 0, 0});
+        return m;
+    }
     if (s.level == 6) { m.push_back({'c', 0, 0}); m.push_back({'c', 1, 0}); return m; }   // root as file / root as string                       // generated SUMMARY sections: run as they are
     if (s.level == 4) { auto ln = line_spans(s.text); for (int i = 1; i < (int)ln.size(); ++i) { m.push_back({'i', i, 0}); m.push_back({'i', i, 1}); } return m; }   // INCLUDE split at every line
     if (s.binary) {
@@ -258,6 +267,19 @@ static std::vector<Seed> make_seeds(bool thorough) {
             }
         }
     }
+    // the model deck with VFPPROD / VFPINJ tables (2 x 2 x 1 x 1 x 2 resp. 2 x 2 values) in its SCHEDULE section; every token and
+    // line mutation inside the table block (record lengths against axis lengths, indices against axis counts)
+    {
+        const std::string model = slurp(root + "/data/MODEL1.DATA");
+        const size_t ps = model.find("\nSCHEDULE\n");
+        if (ps != std::string::npos) {
+            const std::string before = model.substr(0, ps + 10);
+            const std::string block = "VFPPROD\n 5 2000 LIQ WCT GOR THP ' ' METRIC BHP /\n 1 10 /\n 20 40 /\n 0.2 /\n 100 /\n 0 /\n 1 1 1 1 50 60 /\n 2 1 1 1 70 80 /\nVFPINJ\n 6 2000 WAT THP METRIC BHP /\n 1 10 /\n 20 40 /\n 1 150 160 /\n 2 170 180 /\n";
+            Seed sd{"model+vfp", before + block + model.substr(ps + 10), 7};
+            sd.ext = std::to_string(before.size()) + ":" + std::to_string(before.size() + block.size());
+            s.push_back(sd);
+        }
+    }
     // INCLUDE chains of depth 1..5 with every combination of file-size classes (level 6)
     for (int depth = 1; depth <= (thorough ? 5 : 4); ++depth) {
         std::string code(depth, '0');
@@ -281,7 +303,7 @@ int main(int argc, char** argv) {
     Parser parser; P = &parser;
     const char* sc = std::getenv("VERIF_SCRATCH");
     g_dir = std::string(sc ? sc : "/tmp") + "/C20." + std::to_string(getpid()); fs::create_directories(g_dir);
-    run.rule = "seeds: a complete model deck (parse + EclipseState + Schedule + SummaryConfig), the same deck with its SUMMARY section replaced by every SUMMARY keyword of the parser alone / followed by TCPU / with 1..3 list entries (SummaryConfig + merge), the same deck split over an INCLUDE file at every line in both directions (parseFile), chains of INCLUDE files of depth 1..4 (thorough 5) with every combination of 6 file-size classes per level (0..200 padding bytes, with/without final newline; root as file and as string; the parsed deck must hold one keyword per level), the same deck with every grid-property operation keyword x (target, source) pair over 14 arrays of all storage kinds appended to its GRID section (EclipseState), one synthesised instance per parser deck name (parse), generated UNRST/FUNRST/SMSPEC+UNSMRY/EGRID files (EclFile/ERst/ESmry/EGrid/EclipseGrid readers); mutations, every single one at every site: token delete/duplicate/replace by each of " + std::to_string(hostile.size()) + " hostile tokens, line drop/duplicate/swap, truncation at every byte (model deck quick: every 7th), for files every byte x {0x00,0xFF,bit7,+1} and truncation at every offset; two ParseContext configurations (all errors THROW / all IGNORE); executed in the ASan+UBSan build in forked workers; oracle: normal return or std::exception - any signal, sanitizer report, foreign exception, exit() or timeout is a violation keyed by (kind, first /repo frame)";
+    run.rule = "seeds: a complete model deck (parse + EclipseState + Schedule + SummaryConfig), the same deck with its SUMMARY section replaced by every SUMMARY keyword of the parser alone / followed by TCPU / with 1..3 list entries (SummaryConfig + merge), the same deck split over an INCLUDE file at every line in both directions (parseFile), the model deck with VFPPROD/VFPINJ tables and every token/line mutation inside the table block, chains of INCLUDE files of depth 1..4 (thorough 5) with every combination of 6 file-size classes per level (0..200 padding bytes, with/without final newline; root as file and as string; the parsed deck must hold one keyword per level), the same deck with every grid-property operation keyword x (target, source) pair over 14 arrays of all storage kinds appended to its GRID section (EclipseState), one synthesised instance per parser deck name (parse), generated UNRST/FUNRST/SMSPEC+UNSMRY/EGRID files (EclFile/ERst/ESmry/EGrid/EclipseGrid readers); mutations, every single one at every site: token delete/duplicate/replace by each of " + std::to_string(hostile.size()) + " hostile tokens, line drop/duplicate/swap, truncation at every byte (model deck quick: every 7th), for files every byte x {0x00,0xFF,bit7,+1} and truncation at every offset; two ParseContext configurations (all errors THROW / all IGNORE); executed in the ASan+UBSan build in forked workers; oracle: normal return or std::exception - any signal, sanitizer report, foreign exception, exit() or timeout is a violation keyed by (kind, first /repo frame)";
     run.assumptions = {"'any byte string' is claimed for the single-mutation neighbourhood of the seeds only", "mutants that enlarge DIMENS beyond 1e5 cells are classified resource-heavy and not constructed", "per-case time limit 20 s in the sanitizer build, re-run alone with 150 s before being called a hang; a mutant that replaces a token by 1000000 or a 99999999999-fold repeat and still exceeds it is classified resource-heavy (counted), like mutants enlarging DIMENS"};
 
     auto seeds = make_seeds(run.thorough());
@@ -323,7 +345,7 @@ int main(int argc, char** argv) {
             for (size_t i = next; i < N; ++i) {
                 sh->idx = (long)i; alarm(limit);
                 const Case& c = cases[i]; const Seed& s = seeds[c.seed];
-                try { std::string t = apply(s, c.m); sh->outcome[i] = s.binary ? run_file(t, s.ext) : s.level == 3 ? run_summary(t, c.cfg) : s.level == 4 ? run_include(s.text, c.m.a, c.m.b, c.cfg) : s.level == 6 ? run_chain(s.text, c.m.a, c.cfg) : run_text(t, s.level == 5 ? 1 : s.level, c.cfg); }
+                try { std::string t = apply(s, c.m); sh->outcome[i] = s.binary ? run_file(t, s.ext) : s.level == 3 ? run_summary(t, c.cfg) : s.level == 4 ? run_include(s.text, c.m.a, c.m.b, c.cfg) : s.level == 6 ? run_chain(s.text, c.m.a, c.cfg) : s.level == 7 ? run_text(t, 1, c.cfg) : run_text(t, s.level == 5 ? 1 : s.level, c.cfg); }
                 catch (...) { sh->foreign = 1; _exit(87); }
                 if (limit != LIM1) break;        // a retried case runs alone
             }
